@@ -114,6 +114,9 @@ where
                 }
             });
             step!(st, outs, 3, "to_string", if sel == 0 && spec.prec.is_none() { Out::S(x.to_string()) } else { Out::Na });
+            // Debug reached through `{:x?}` / `{:X?}`: still the decimal expansion (flags affect only padding and prefixes)
+            step!(st, outs, 4, "debug_x?", if sel == 1 { sres(vcore::fmtspec::render_dbghex(spec, false, &call)) } else { Out::Na });
+            step!(st, outs, 5, "debug_X?", if sel == 1 { sres(vcore::fmtspec::render_dbghex(spec, true, &call)) } else { Out::Na });
         }
         _ => {
             let x = F::from_raw(a);
